@@ -34,6 +34,8 @@ def evStr (f : Fmt) : Ev → String
       | some v => s!"conv {v}"
       | none => "conv -"
   | Ev.ret t b => s!"ret t{t} {boolStr b}"
+  | Ev.callerCont => "caller-continues"
+  | Ev.deadArg => "dead-arg"
 
 def isOpEv : Ev → Bool
   | Ev.alloc => false
@@ -41,6 +43,8 @@ def isOpEv : Ev → Bool
   | Ev.cb _ => false
   | Ev.conv _ => false
   | Ev.ret _ _ => false
+  | Ev.callerCont => false
+  | Ev.deadArg => false
   | _ => true
 
 def isSlotOp : Ev → Bool
@@ -122,9 +126,10 @@ def runRound (hdr : List String) (body : List (List String)) (nx : Slot) : List 
     | some ("r" :: rest) => parseRK rest
     | _ => none
   let cbThrows : Option Nat := if body.any (fun w => w.head? == some "cbthrow") then some 88 else none
+  let inCoro := body.any (fun w => w == ["ctx", "coro"]) && adapterName == "cbawait"
   let cvb := if behav == "throw" then ConvB.throw 77 else if behav == "leave" then ConvB.leave else ConvB.ret
   -- one extra (unscheduled) destructor agent at index n: the controller destroys the promise after the run
-  let cfg : Cfg := { adapter := adapter, n := n + 1, rk := rk, pre := pre, selfRes := selfRes, cvb := cvb, srcVoid := srcVoid, cbThrows := cbThrows }
+  let cfg : Cfg := { adapter := adapter, n := n + 1, rk := rk, pre := pre, selfRes := selfRes, cvb := cvb, srcVoid := srcVoid, cbThrows := cbThrows, inCoro := inCoro }
   let s0 := initWith cfg nx
   let s0 := if hasD then setPc s0 n Pc.done else s0
   -- `imm`: the factory returns an already resolved future that the harness cannot name: its slot is not traced
